@@ -348,6 +348,9 @@ func runC06(r *Report, rng *rand.Rand, thorough bool) {
 		if m.wantOK {
 			if handlers != 1 {
 				sig := "wellformed_rejected/" + m.fw + "/" + m.cell.Loc + "/" + m.kind
+				if m.fw == "fiber" && m.cell.Loc == "path" && strings.Contains(m.cell.Name, "-") && handlers == 0 && res.Status == 404 {
+					sig = "fiber_path_parameter_name_with_dash_not_routed" // third-party route syntax, recorded for C04 / C05 as well
+				}
 				what := "optional parameter omitted"
 				if m.kind == "well-formed" {
 					what = "parameter present and well-formed"
